@@ -431,10 +431,11 @@ func (st *StateDB) GetWithdrawQueue() *WithdrawQueue {
 
 func (st *StateDB) RemoveWithdrawRecords(index []int) bool {
 	queue, _ := st.getWithdrawQueue()
-	removedRecords := queue.RemoveRecords(index)
-	for _, record := range removedRecords {
-		st.validatorJournal.append(&validatorDelWithdrawChange{address: &record.Validator, prev: record})
-	}
+	// RemoveRecords compacts the slice in place: keep the previous order for the journal
+	prev := make([]*WithdrawRecord, len(queue.Records))
+	copy(prev, queue.Records)
+	queue.RemoveRecords(index)
+	st.validatorJournal.append(&validatorDelWithdrawChange{prev: prev})
 	return true
 }
 
